@@ -78,7 +78,8 @@ type mavenElement struct {
 func (m *mavenExtension) canon(showBuild bool) string {
 	var b strings.Builder
 	for i, e := range m.elems {
-		if i > 0 {
+		// The first element has a separator only when the version starts with one ("-1").
+		if i > 0 || e.sep != 0 {
 			b.WriteByte(e.sep)
 		}
 		b.WriteString(e.str)
